@@ -23,7 +23,7 @@ def run(ctx):
             fp.oracle_c01(ctx, interp, case, res)
     # graph stage (instructions + performer on abstract parameter classes) AND the whole pipeline (bit-exact output, WF.modelOK /
     # skeleton evaluated on the model's own output, NF membership) are compared with the Lean model on every case
-    fp.explore(ctx, drv, 220 if ctx.tier == "quick" else 4000, per_case, graph_corr=True, pipe_corr=True)
+    fp.explore(ctx, drv, 600 if ctx.tier == "quick" else 4000, per_case, graph_corr=True, pipe_corr=True)
     interp.close()
     drv.close()
     return common.finish(ctx)
